@@ -50,13 +50,27 @@ pub mod client_pin { use vstd::prelude::*; verus! {
 pub mod credential_management { use vstd::prelude::*; verus! {
     #[verifier::external_body] pub struct Request<'a> { _p: core::marker::PhantomData<&'a ()> }
     #[verifier::external_body] pub struct Response { _p: () } } }
-pub mod large_blobs { use vstd::prelude::*; verus! {
-    #[verifier::external_body] pub struct Request<'a> { _p: core::marker::PhantomData<&'a ()> }
-    #[verifier::external_body] pub struct Response { _p: () } } }
+// the LargeBlobs request is the real declaration (its members are visible to the dispatch code); leaf type opaque
+pub mod serde_bytes { use vstd::prelude::*; verus! {
+    #[verifier::external_body] pub struct Bytes { _p: () } } }
+pub mod sizes { use vstd::prelude::*; verus! {
+//@extract-file src/sizes.rs
+} }
+pub use crate::sizes::*;
+pub mod large_blobs {
+    use vstd::prelude::*;
+    use crate::serde_bytes;
+    verus! {
+//@extract src/ctap2/large_blobs.rs :: ^pub struct Request<'a> :: noderive
+    #[verifier::external_body] pub struct Response { _p: () }
+    }
+}
 pub mod get_info { use vstd::prelude::*; verus! {
     #[verifier::external_body] pub struct Response { _p: () } } }
 
 pub type Result<T> = core::result::Result<T, Error>;
+
+//@include inc/core_contract.rs
 
 // core: `Result::inspect_err` calls the closure on the error and returns the receiver unchanged.
 pub assume_specification<T, E, F: FnOnce(&E)>[ core::result::Result::<T, E>::inspect_err ](this: core::result::Result<T, E>, f: F) -> (r: core::result::Result<T, E>)
